@@ -31,6 +31,7 @@ type Config struct {
 	Mismatch        bool     // pushes whose descriptor disagrees with the content
 	BadManifests    bool     // malformed / wrong-shape / bad-descriptor manifests
 	Retype          bool     // same manifest bytes pushed under another opaque media type
+	Attach          bool     // several live writer handles on one upload session
 	BigLens         []int    // extra blob lengths (e.g. around chunk sizes)
 	MaxSmall        int      // uniform small blob lengths 0..MaxSmall
 	BigManifest     int      // if > 0, some manifests are padded to about this size
@@ -251,7 +252,11 @@ func Gen(cfg Config) func(t *rapid.T) Script {
 			op.R = repo("repo")
 			if op.K == "upload" {
 				// upload episodes: the next step of a slot depends on where the slot is
-				op.W = rapid.IntRange(0, 1).Draw(t, "slot")
+				nslots := 1
+				if cfg.Attach {
+					nslots = 2
+				}
+				op.W = rapid.IntRange(0, nslots).Draw(t, "slot")
 				switch {
 				case !sh.writers[op.W]:
 					op.K = "upStart"
@@ -265,6 +270,12 @@ func Gen(cfg Config) func(t *rapid.T) Script {
 					op.K = rapid.SampledFrom([]string{"upWrite", "upWrite", "upWrite", "upWrite", "upResume", "upResume", "upResume", "upCommit", "upCommit", "upSize", "upCancel", "upClose", "upStart"}).Draw(t, "upKind")
 					if op.K == "upCancel" && cfg.NoCancel {
 						op.K = "upSize"
+					}
+					if cfg.Attach && rapid.IntRange(0, 4).Draw(t, "attach") == 0 {
+						// a second handle on the same session; the first one stays open
+						src := op.W
+						op.K, op.O1 = "upAttach", int64(src)
+						op.W = (src + rapid.IntRange(1, 2).Draw(t, "attachSlot")) % 3
 					}
 				}
 			}
@@ -371,6 +382,18 @@ func Gen(cfg Config) func(t *rapid.T) Script {
 				if cfg.UnknownResumeID && rapid.IntRange(0, 9).Draw(t, "unknownID") == 0 {
 					op.Mode = 3
 					op.S = rapid.SampledFrom([]string{"unknown-1", "unknown-2"}).Draw(t, "id")
+				}
+				if op.Mode == 2 {
+					op.N = rapid.SampledFrom([]int{-1, 1, 2, 100}).Draw(t, "offsetDelta")
+					sh.pending[op.W] = true
+				}
+			case "upAttach":
+				sh.closed[op.W] = false
+				sh.writers[op.W] = true
+				sh.pending[op.W] = false
+				op.Mode = rapid.SampledFrom([]int{0, 0, 1, 1, 2, 2}).Draw(t, "attachMode")
+				if op.Mode == 2 && cfg.NoWrongOffset {
+					op.Mode = 1
 				}
 				if op.Mode == 2 {
 					op.N = rapid.SampledFrom([]int{-1, 1, 2, 100}).Draw(t, "offsetDelta")
